@@ -116,6 +116,70 @@ def scenario_queue_full(repo, seed, qsize=1, batch=True):
     return sim, viols, None
 
 
+def scenario_requester_becomes_leader(repo, seed, n_first=2, n_local=1, batch=True):
+    """A follower's forwarded commands are acknowledged by the leader with their log positions (the follower now
+    waits for those positions to commit) but never replicated; the leader is lost; the FOLLOWER itself becomes leader
+    and its own no-op and local commands take exactly those positions.  Every callback must fire exactly once: the
+    forwarded ones with a failure (their entries were replaced), the local ones with SUCCESS and their own result."""
+    sim = Sim(repo, ["a", "b", "c"], seed=seed, conf={"appendEntriesUseBatch": batch})
+    sim.connect_all()
+    L1 = sim.elect()
+    if L1 is None:
+        return sim, [], "no leader"
+    F, P = [i for i in sim.voters if i != L1]
+    sim.run(4)
+    first = [sim.submit(F, "A%d" % k) for k in range(n_first)]
+    sim.tick(F, 0.0625)
+    while sim.deliver(F, L1):
+        pass
+    sim.tick(L1, 0.0625)             # L1 appends and answers with (idx, term)
+    # only the apply_command_response messages reach F; the entries reach nobody
+    keep = [m for m in sim.chan[(L1, F)] if m.get("type") == "apply_command_response"]
+    sim.chan[(L1, F)].clear()
+    sim.chan[(L1, P)].clear()
+    for m in keep:
+        sim.inject(L1, F, m)
+    waiting = sum(len(v) for v in sim.P(F, "commandsWaitingCommit").values())
+    sim.disconnect(L1, F)
+    sim.disconnect(L1, P)
+    for _ in range(400):
+        sim.tick(F, 0.0625)
+        while sim.deliver(F, P):
+            pass
+        while sim.deliver(P, F):
+            pass
+        if sim.objs[F]._isLeader():
+            break
+    if not sim.objs[F]._isLeader():
+        return sim, [], "F did not become leader"
+    local = [sim.submit(F, "L%d" % k) for k in range(n_local)]
+    sim.run(8, among=[F, P])
+    # later traffic fills every position the lost leader had promised (a waiting callback is decided when ITS
+    # position is applied; positions nobody has filled yet stay open, which is not a violation)
+    local += [sim.submit(F, "fill%d" % k) for k in range(n_first)]
+    sim.run(16, among=[F, P])
+    viols = monitors.callbacks_contract(sim) + monitors.sm_safety(sim) + monitors.errors(sim)
+    fired = {}
+    for (_, cid, res, err) in sim.callbacks:
+        fired.setdefault(cid, []).append((res, err))
+    for k, cid in enumerate(first):
+        f = fired.get(cid, [])
+        if len(f) != 1:
+            viols.append({"signature": "callback:forwarded-command-never-answered" if not f else "callback:fired-twice",
+                          "what": "forwarded command A%d was acknowledged by the lost leader %s with a log position that the new "
+                                  "leader %s (the requester itself) filled with another entry: its callback fired %d times %s"
+                                  % (k, L1, F, len(f), f)})
+        elif f[0][1] == 0:
+            viols.append({"signature": "callback:success-for-replaced-entry",
+                          "what": "forwarded command A%d reported SUCCESS %r although its entry never existed outside %s" % (k, f[0], L1)})
+    for k, cid in enumerate(local):
+        f = fired.get(cid, [])
+        if len(f) != 1 or f[0][1] != 0:
+            viols.append({"signature": "callback:local-command-of-new-leader-not-acknowledged",
+                          "what": "local command L%d of the new leader %s: callbacks %s" % (k, F, f)})
+    return sim, viols, None if waiting else "the follower was not waiting for any position"
+
+
 def run(ctx):
     t0 = time.time()
     cases, viols, samples, notes = 0, [], [], []
@@ -153,17 +217,34 @@ def run(ctx):
                 for x in v:
                     x["replay"] = {"component": "corr.c02_forwarding", "qfull": [qsize, batch], "seed": ctx.seed}
                 viols.extend(v)
+    if not viols:
+        for n_first in (1, 2, 3):
+            for n_local in (1, 2):
+                for batch in (True, False):
+                    sim, v, note = scenario_requester_becomes_leader(ctx.repo, ctx.seed, n_first, n_local, batch)
+                    cases += 1
+                    seen.add((("reqlead", n_first, n_local, batch), note is None))
+                    if note:
+                        notes.append(note)
+                    for x in v:
+                        x["replay"] = {"component": "corr.c02_forwarding", "reqlead": [n_first, n_local, batch], "seed": ctx.seed}
+                    viols.extend(v)
     reached = len([1 for (p, ok) in seen if ok])
     r = {"name": "corr.c02_forwarding", "cases": cases, "distinct": len(seen), "violations": viols[:5],
          "coverage": {"plans": len(plans), "plans_reaching_the_point": reached, "notes": sorted(set(notes))[:5]},
          "samples": samples, "wall_s": round(time.time() - t0, 2)}
     if reached == 0:
         r["inconclusive"] = "no plan reached the stale-response point"
+    elif not any(p[0] == "reqlead" and ok for (p, ok) in seen if isinstance(p, tuple) and p and p[0] == "reqlead"):
+        r["inconclusive"] = "requester never became leader while waiting for acknowledged positions"
     return r
 
 
 def replay(ctx, violation):
     rp = violation.get("replay", {})
+    if "reqlead" in rp:
+        sim, v, note = scenario_requester_becomes_leader(ctx.repo, rp.get("seed", 1), *rp["reqlead"])
+        return {"violated": bool(v), "violations": v[:5], "note": note}
     if "qfull" in rp:
         sim, v, note = scenario_queue_full(ctx.repo, rp.get("seed", 1), *rp["qfull"])
         return {"violated": bool(v), "violations": v[:5], "note": note}
